@@ -27,7 +27,9 @@
       info of its current entry (or as "did not exist") and its ancestors
       are tracked; nil is returned whenever the existing proper ancestors of
       [p] are directories.  (So a *failed* ForceBackup re-baselines [p] too:
-      the old copy is dropped before the new one is attempted.)
+      the old copy is dropped before the new one is attempted.  If [p] had
+      been recorded as "did not exist", the record is back after a failed
+      call and [p] does not exist: old and new baseline coincide.)
     - [C17_rollback_after_force_backup] (the property): after ForceBackup(p)
       (whatever it returned), any run of covered operations ([good_run]) and
       Rollback: Rollback returns nil, [p] is as it was at the moment of the
@@ -35,6 +37,12 @@
       [B0], the backup and the bookkeeping are empty.  Equalities are
       [sonode_eqv]: everything for regular files (content, mode, owner,
       mtime), everything but the timestamp for directories and symlinks.
+      After a call that did not return nil, [p] is moreover as in [B0] unless
+      it had been tracked as existing (only then was there a copy to lose).
+    - [C17_failed_force_backup]: the last statement on its own: after a
+      FAILED ForceBackup(p), covered operations and Rollback: Rollback
+      returns nil, every other path is as in [B0], [p] is as at the moment
+      of the call and - unless it was tracked as existing - as in [B0].
     - [C17_whole_transaction]: the same starting from an [initial] state and
       a [good_run] up to the ForceBackup call.
     - [C17_untracked_is_try_backup]: on an untracked path (of any type)
@@ -51,8 +59,27 @@
       tryRemoveBackup walks it);
     - [parents_original Vb B0 w p]: if [p] is tracked as "did not exist" and
       exists now, its parent directories existed when the transaction began.
-      Necessary (recorded finding D22, not repaired):
-      [C17_needs_parents_original] below.
+      Why it is still there after the repair of D22 (below): if a parent of
+      [p] was created in the transaction it is not in the backup, and the
+      copy of [p] is attempted below a directory that is missing there.  The
+      laws of Spec/Laws.v are positive only (they say when a call succeeds
+      and what it does then); no law says that creating a file or symlink
+      below a missing directory *fails and changes nothing*, so in that case
+      the outcome of tryBackup is not determined by the laws and nothing can
+      be proved from them (with such a law for the backup the condition
+      could be dropped: the call fails, the record is put back and the
+      invariant holds for the unchanged [B0]).  In the concrete model the
+      call fails with the error and the transaction stays intact:
+      [C17_fixed_new_parent] below.
+
+    Repaired finding D22 (found by the proof as "F1": the side condition
+    [parents_original]; /repo commit 8df8649): ForceBackup(p) of a path
+    created in the transaction below a directory created in the transaction
+    dropped the record "did not exist" of [p], failed to create the copy
+    (the new directory is not in the backup) and left [p] untracked;
+    Rollback then could not remove the new directory (not empty) and
+    failed.  Since the repair a failed ForceBackup puts the record "did not
+    exist" back.
 
     Repaired finding D21 (found while proving this property as "F2"; /repo
     commit a328feb): tryRemoveBackup used to Lstat a path recorded as "did
@@ -102,9 +129,35 @@ Theorem C17_rollback_after_force_backup :
                sonode_eqv (Vb w3 !! p) (Vb w !! p) /\
                (* every other path: as when the transaction began *)
                (forall q, q <> p -> q <> s_root -> sonode_eqv (Vb w3 !! q) (B0 !! q)) /\
-               (forall q, q <> s_root -> Vk w3 !! q = None) /\ w_infos w3 = ∅.
+               (forall q, q <> s_root -> Vk w3 !! q = None) /\ w_infos w3 = ∅ /\
+               (* after a failed call p is even as in B0, unless it had been
+                  tracked as existing *)
+               (r <> MOk tt -> (forall fi, w_infos w !! p <> Some (Some fi)) ->
+                sonode_eqv (Vb w3 !! p) (B0 !! p)).
 Proof. exact c17_spec. Qed.
 Print Assumptions C17_rollback_after_force_backup.
+
+(** a ForceBackup that failed *)
+Theorem C17_failed_force_backup :
+  forall (base backup : fsapi) (Vb Vk : world -> store) (tnb tnk : str -> str)
+         (accb acck : str -> str -> Prop) (rhb rhk whb whk : fhandle -> str -> nat -> Prop)
+         (B0 : store),
+  base_laws base Vb Vk tnb accb rhb whb -> base_laws2 base Vb Vk tnb accb rhb whb ->
+  backup_laws backup Vb Vk tnk acck rhk whk ->
+  links_ok tnb tnk accb acck B0 -> all_small B0 -> swf B0 ->
+  forall (w : world) (p : str),
+  Inv Vb Vk B0 w -> snolinkpar (Vb w) p -> p <> s_root ->
+  entry_ok tnb tnk accb acck p (Vb w !! p) -> orig_not_dir_cond w p ->
+  parents_original Vb B0 w p ->
+  forall (e : errno) (w1 : world) (ops : list op) (w2 : world),
+    b_force_backup base backup p w = (MErr e, w1) -> good_run base backup Vb w1 ops w2 ->
+    exists w3, b_rollback base backup w2 = (MOk tt, w3) /\
+               (forall q, q <> p -> q <> s_root -> sonode_eqv (Vb w3 !! q) (B0 !! q)) /\
+               sonode_eqv (Vb w3 !! p) (Vb w !! p) /\
+               ((forall fi, w_infos w !! p <> Some (Some fi)) -> sonode_eqv (Vb w3 !! p) (B0 !! p)) /\
+               (forall q, q <> s_root -> Vk w3 !! q = None) /\ w_infos w3 = ∅.
+Proof. exact c17_failed_spec. Qed.
+Print Assumptions C17_failed_force_backup.
 
 (** a whole transaction: initial state, covered operations, ForceBackup(p),
     covered operations, Rollback *)
@@ -154,22 +207,27 @@ Proof.
   - split; reflexivity.
 Qed.
 
-(** [parents_original] is necessary (recorded finding D22): Mkdir(/a);
-    Create(/a/f).  ForceBackup(/a/f) drops the entry "did not exist" of /a/f, then cannot create the copy (the
-    new directory /a is not in the backup) and fails, leaving /a/f untracked.
-    The premise of the property ("succeeds") is false here, but the failed
-    call breaks the transaction: Rollback fails to remove /a (not empty) and
-    /a, /a/f stay.  (Without the ForceBackup both are removed.) *)
+(** Regression for the repaired finding D22.  Mkdir(/a); Create(/a/f).
+    ForceBackup(/a/f) drops the entry "did not exist" of /a/f, then cannot
+    create the copy (the new directory /a is not in the backup) and fails
+    with the error.  Before the repair that left /a/f untracked, and
+    Rollback failed to remove /a (not empty): /a and /a/f stayed.  Now the
+    failed call leaves /a/f recorded as "did not exist" again, Rollback
+    returns nil and /a, /a/f are gone - exactly as without the ForceBackup
+    (third conjunct). *)
 Definition c17_ops2 : list op := [OMkdir [47;97] 493; OCreate [47;97;47;102] [120]].
-Example C17_needs_parents_original :
+Example C17_fixed_new_parent :
+  (let '(rs, w') := run_history c17_cfg (c17_ops2 ++ [OForceBackup [47;97;47;102]]) c17_w0 in
+   nth 2 rs MHalt = MErr EOther /\ w_infos w' !! [47;97;47;102] = Some None) /\
   (let '(rs, w') := run_history c17_cfg (c17_ops2 ++ [OForceBackup [47;97;47;102]; ORollback]) c17_w0 in
-   nth 2 rs MHalt = MErr EOther /\ nth 3 rs MHalt = MErr ERollback /\
-   st_fs (w_st w') !! [[97]; [102]] <> None) /\
+   nth 2 rs MHalt = MErr EOther /\ nth 3 rs MHalt = MOk ObUnit /\
+   st_fs (w_st w') !! [[97]] = None /\ st_fs (w_st w') !! [[97]; [102]] = None) /\
   (let '(rs, w') := run_history c17_cfg (c17_ops2 ++ [ORollback]) c17_w0 in
    nth 2 rs MHalt = MOk ObUnit /\
    st_fs (w_st w') !! [[97]] = None /\ st_fs (w_st w') !! [[97]; [102]] = None).
 Proof.
-  vm_compute. split.
-  - split; [reflexivity | split; [reflexivity | intro H; inversion H]].
+  vm_compute. split; [| split].
+  - split; reflexivity.
+  - split; [reflexivity | split; [reflexivity | split; reflexivity]].
   - split; [reflexivity | split; reflexivity].
 Qed.
